@@ -347,6 +347,23 @@ def _check(args):
             k_ = rm_.choice([17, 18, 20, 33])
             expr_ = " + ".join("${%s}" % rm_.choice(qn_) for _ in range(k_))
             form["survey"].append({"type": "calculate", "name": "many_refs_sum", rm_.choice(["calculation", "relevant", "constraint"]): expr_, "calculation": expr_})
+    audit_params = None
+    if i % 4 == 2 and not any(r_.get("type") == "audit" for r_ in form["survey"]):
+        # an audit row with any subset of its parameters: each becomes an odk: attribute of the bind of meta/audit, none is lost beside another
+        ra = rng_for(seed, PID, "audit", i)
+        audit_params = {}
+        if ra.random() < 0.5:
+            audit_params.update({"location-priority": ra.choice(["balanced", "high-accuracy", "low-power", "no-power"]), "location-min-interval": ra.choice(["60", "10"]),
+                                 "location-max-age": ra.choice(["120", "60"])})
+        for k_, vs_ in (("track-changes", ["true", "false"]), ("identify-user", ["true", "false"]), ("track-changes-reasons", ["on-form-edit"])):
+            if ra.random() < 0.6:
+                audit_params[k_] = ra.choice(vs_)
+        items_ = list(audit_params.items())
+        ra.shuffle(items_)
+        row_ = {"type": "audit", "name": "audit"}
+        if items_:
+            row_["parameters"] = ra.choice([" ", ", ", ";"]).join(f"{k_}={v_}" for k_, v_ in items_)
+        audit_row = row_
     # multi-word headers written with any white space between the words (the audit reads the canonical key)
     conv = form
     if i % 3 == 0:
@@ -361,11 +378,24 @@ def _check(args):
             items = [(respell.get(k, k), v) for k, v in row.items()]
             row.clear()
             row.update(items)
+    if audit_params is not None:
+        import copy
+        conv = copy.deepcopy(conv)          # the audit row lives in the meta block: it is added to the converted workbook only, the row audit does not see it
+        conv["survey"].insert(0, audit_row)
     st, r = xf.convert_form(forms.as_dict(conv))
     if st != "ok":
         return {"i": i, "skip": st + ":" + str(r)[:50]}
     try:
         probs = audit(form, r.xform)
+        if audit_params is not None:
+            root_ = xf.lparse(r.xform)
+            ab_ = [b for b in root_.iter(xf.XF + "bind") if (b.get("nodeset") or "").endswith("/meta/audit")]
+            if len(ab_) != 1:
+                probs.append(f"{len(ab_)} binds for meta/audit")
+            else:
+                got_ = {k.split("}")[-1]: v for k, v in ab_[0].attrib.items() if k.startswith("{http://www.opendatakit.org/xforms}")}
+                if got_ != audit_params:
+                    probs.append(f"the audit bind carries {got_}, the parameters cell says {audit_params}")
     except Exception as e:
         return {"i": i, "form": form, "what": f"oracle could not audit: {e!r}"}
     if probs:
